@@ -133,6 +133,8 @@ def random_private_case(rng):
     r = rng.random()
     if r < 0.3:
         c["target"] = R(Fraction(rng.randint(-40, 40), 4))
+        if rng.random() < 0.3:
+            c.update(target=R(0), target_default=True)
         return c
     c["kind"] = "interval"
     fpi = pick_fixed(rng, n, maxwin=6, minint=rng.choice([0, 1]))
